@@ -17,7 +17,17 @@
 #include <nstd/Signal.hpp>
 #include <nstd/Future.hpp>
 #include <nstd/Thread.hpp>
+#include <nstd/Atomic.hpp>
+#include <nstd/Time.hpp>
+#include <nstd/Mutex.hpp>
+#include <nstd/PoolList.hpp>
+#include <nstd/System.hpp>
+// `class Framework { ~Framework(); static Framework framework; }` of Future.cpp has only default-private members: the classes DEFINED in
+// Future.cpp are compiled as structs (all headers it includes are already in, so only Future.cpp itself is affected), so that the
+// harness can run `Framework::~Framework()` (the static destruction of the lazily created pool) under the controlled scheduler.
+#define class struct
 #include "Future.cpp"
+#undef class
 #undef private
 #undef protected
 #include <stdio.h>
@@ -326,7 +336,8 @@ static int runScenario(char* line)
   for(int i = 0; i < nclients; ++i) clients[i].thread.join();
   printf("E 0 clients-joined\n");
   Pool* p = curPool();
-  if(p) { delete p; }
+  if(lazy) FP::Framework::framework.~Framework();   // the library's own shutdown of the lazily created pool: `if (_threadPool) delete _threadPool;` (model: frame mDel)
+  else if(p) { delete p; }
   g_poolAlive = false; FP::_threadPool = 0; g_pool = 0;
   printf("E 0 pool-deleted\n");
   sched_main_done();
